@@ -327,8 +327,10 @@ class LoaderGroup(Generic[_K, _L]):
         template_map = _normalize_template(templates)
         input_shape: tuple[int, int, int] | None = None
         has_rotation = False
+        n_templates = 1
         for key, loader in self:
             _tmps = template_map[key]
+            n_templates = len(_tmps)
             model = alignment_model(
                 template=[loader.normalize_template(t) for t in _tmps],
                 mask=loader.normalize_mask(mask),
@@ -356,7 +358,7 @@ class LoaderGroup(Generic[_K, _L]):
 
         all_results = compute(all_tasks)
         if has_rotation:
-            remainder = len(templates)
+            remainder = n_templates
         else:
             remainder = -1
         out: list[tuple[_K, _L]] = []
